@@ -592,6 +592,9 @@ func (x *Exec) assignHeaps(a *Clause, f *ssa.Function, c *Contract, out map[stri
 }
 
 func elemSortOfHeapName(h string) Sort {
+	if strings.HasPrefix(h, "F!") || h == "MP!" || h == "MV!" {
+		return heapElemSort(h)
+	}
 	if strings.HasPrefix(h, "E!") {
 		return Sort(h[2:])
 	}
